@@ -307,7 +307,7 @@ class Registration(Endpoint):
             if p.fragment:
                 raise InvalidRedirectURIError("redirect_uri contains fragment")
             if client_type == APPLICATION_TYPE_NATIVE:
-                if p.scheme not in ["http", "https"]:  # Custom scheme
+                if p.scheme and p.scheme not in ["http", "https"]:  # Custom scheme
                     _custom = True
                 elif p.scheme == "http" and p.hostname in ["localhost", "127.0.0.1"]:
                     pass
